@@ -332,6 +332,6 @@ def units(tier):
              space=_space(tier).describe() + " x every ordered pair (s,t)"),
         Unit("floyd-exhaustive-lengths", check, count=c03._w_total, cases=c03._w_cases, shards=(16, 64),
              space="; ".join(sp.describe() for sp in c03._wspace(tier)) + " used as length matrices x every ordered pair (s,t)"),
-        Unit("floyd-random", check, strategy=lambda: floyd_cases(9), examples=(1500, 20000), shards=(8, 16)),
-        Unit("navigation", check, strategy=nav_cases, examples=(1000, 12000), shards=(6, 16)),
+        Unit("floyd-random", check, strategy=lambda: floyd_cases(9), examples=(1500, 160000), shards=(8, 16)),
+        Unit("navigation", check, strategy=nav_cases, examples=(1000, 96000), shards=(6, 16)),
     ]
